@@ -310,10 +310,16 @@ def check_arg_origin(ctx, key, body, call_pattern, arg_index, allowed_regex, wha
     return ok_all
 
 
+_NEG = {"Gt": "Le", "Le": "Gt", "Lt": "Ge", "Ge": "Lt", "Eq": "Ne", "Ne": "Eq"}
+_SWAP = {"Gt": "Lt", "Lt": "Gt", "Ge": "Le", "Le": "Ge", "Eq": "Eq", "Ne": "Ne"}
+
+
 def G_bin(op_re, a_all, b_all, label, pass_value):
-    """guard = branch on a MIR comparison `a <op> b` (op matching op_re) where the deep origins of `a` match every regex
-    in a_all and those of `b` every regex in b_all; protected code on the edge where the comparison == pass_value"""
+    """guard = branch on a MIR comparison `a <op> b` where the deep origins of `a` match every regex in a_all and those of `b` every
+    regex in b_all; protected code on the edge where `a <op> b` == pass_value.  Every equivalent syntactic form is recognised: swapped
+    operands (`b > a` for `a < b`) and the complementary operator on the other edge (`a >= b` false for `a < b` true)."""
     opr = re.compile(op_re)
+    wanted = [o for o in _NEG if opr.fullmatch(o)]
 
     def fn(body):
         edges, blocks = [], []
@@ -322,13 +328,26 @@ def G_bin(op_re, a_all, b_all, label, pass_value):
             if not si or si["kind"] != "bool":
                 continue
             for a in si["atoms"]:
-                if a.kind != "bin" or not opr.fullmatch(a.what):
+                if a.kind != "bin" or a.what not in _NEG:
                     continue
                 na = origin_names(body, a.extra["a"], deep=True)
                 nb = origin_names(body, a.extra["b"], deep=True)
-                if all(any(re.search(r, x) for x in na) for r in a_all) and all(any(re.search(r, x) for x in nb) for r in b_all):
-                    edges.append((bb, si["true"] if pass_value else si["false"]))
-                    blocks.append(bb)
+                ma = lambda n, spec: all(any(re.search(r, x) for x in n) for r in spec)
+                op = None
+                if ma(na, a_all) and ma(nb, b_all):
+                    op = a.what
+                elif ma(na, b_all) and ma(nb, a_all):
+                    op = _SWAP[a.what]
+                if op is None:
+                    continue
+                if op in wanted:
+                    pv = pass_value
+                elif _NEG[op] in wanted:
+                    pv = not pass_value
+                else:
+                    continue
+                edges.append((bb, si["true"] if pv else si["false"]))
+                blocks.append(bb)
         return edges, blocks
     return ("custom", fn, label)
 
